@@ -329,6 +329,30 @@ pub fn run(ctx: &mut Ctx) {
     }
     ctx.extra.insert("exhaustive_subspace".into(), json!({"non_genesis_blocks_up_to": n_max, "cases": exhaustive_cases, "what": "all parent vectors x gt masks x all delivery permutations x loading_completed in {true,false}"}));
 
+    // small trees with one invalid block: every parent vector x every non-first position x two
+    // transaction edits whose damage is confined to the utxoset (an already spent / a non-existent
+    // input), delivered in creation order: failed reorganisations with the offending block at every
+    // depth of the candidate chain
+    let mut invalid_cases = 0u64;
+    {
+        let ncfg = NodeCfg { gp: 100, heartbeat: 100, social_stake: 0, loading_completed: true, prune: 8 };
+        let n = n_max.min(4);
+        for parents in all_parent_vectors(n) {
+            for pos in 1..n {
+                for edit in [TxEdit::SpentInput, TxEdit::NonExistentInput] {
+                    let mut hist = small_tree(ncfg, &parents, (1 << n) - 1, true);
+                    hist.blocks[pos].bad_tx = Some((edit, 1, 0));
+                    let case = Case { hist, order: vec![], dups: vec![] };
+                    invalid_cases += 1;
+                    for (k, w) in eval_case(ctx, &case, true) {
+                        ctx.violation(&k, w, json!({"check": "small_tree_with_invalid_block", "case": case}));
+                    }
+                }
+            }
+        }
+    }
+    ctx.extra.insert("small_trees_with_one_invalid_block".into(), json!(invalid_cases));
+
     // random trees
     let cases = ctx.tier.pick(300u32, 12_000);
     pbt_run(ctx, "random_trees", cases, arb_case(16), |c, case, counting| eval_case(c, case, counting));
